@@ -132,6 +132,9 @@ func (l *memListener) dial(id int, timeout time.Duration) (*memConn, error) {
 type connInfo struct {
 	id          int
 	hookFail    bool
+	hookShape   string             // what the connect hook returns as its context: see hookShapes ("" = same when it succeeds, nil when it fails)
+	hookCancel  context.CancelFunc // shape can: the cancel function of the context the hook returned
+	hookForeign atomic.Int32       // terminate hook runs whose context is not (derived from) the one the connect hook returned
 	connectN    atomic.Int32
 	terminateN  atomic.Int32
 	handlers    atomic.Int32 // running now
@@ -455,6 +458,51 @@ func connIDOf(ctx context.Context) int {
 	return -1
 }
 
+// The shapes of a connect hook's result. ConnectHook is `func(context.Context) (context.Context, error)`:
+// an error refuses the connection WHATEVER context comes with it (`return ctx, err` is the usual Go style),
+// and a hook that succeeds returns the context it was given or one derived from it.
+//
+//	same  the context the hook was given          val   derived with a value
+//	can   derived, cancellable, still live (a succeeding hook's is cancelled by the terminate hook)
+//	dead  derived and already cancelled           nil   no context (failing hooks only)
+//	bg    context.Background(): not derived from the connection's (failing hooks only)
+//
+// (nil, nil) is not exercised: a nil context is outside the contract of package context.
+var hookShapesFail = []string{"nil", "same", "val", "can", "dead", "bg"}
+var hookShapesOK = []string{"same", "val", "can"} // plus dead for connections without requests (the handlers of such a connection see a cancelled context and their responses are dropped)
+
+type hookMark struct{}
+
+func hookResult(ctx context.Context, ci *connInfo) (context.Context, error) {
+	var out context.Context
+	switch ci.hookShape {
+	case "same":
+		out = ctx
+	case "val":
+		out = context.WithValue(ctx, hookMark{}, ci.id)
+	case "can":
+		c, cancel := context.WithCancel(context.WithValue(ctx, hookMark{}, ci.id))
+		ci.hookCancel = cancel
+		out = c
+	case "dead":
+		c, cancel := context.WithCancel(context.WithValue(ctx, hookMark{}, ci.id))
+		cancel()
+		out = c
+	case "bg":
+		out = context.Background()
+	case "nil":
+		out = nil
+	default:
+		if !ci.hookFail {
+			out = ctx
+		}
+	}
+	if ci.hookFail {
+		return out, errors.New("scripted connect hook failure")
+	}
+	return out, nil
+}
+
 type testServer struct {
 	w      *world
 	l      *memListener
@@ -500,16 +548,22 @@ func newTestServerOn(useTLS bool, wrap func(kmipserver.RequestHandler) kmipserve
 				}
 				w.touch()
 			}
-			if ci.hookFail {
-				return nil, errors.New("scripted connect hook failure")
-			}
-			return ctx, nil
+			return hookResult(ctx, ci)
 		}).
 		WithTerminateHook(func(ctx context.Context) {
-			if connIDOf(ctx) < 0 {
+			if ctx == nil || connIDOf(ctx) < 0 {
 				w.strayHooks.Add(1)
+				if ctx == nil {
+					return
+				}
 			}
 			ci := w.info(connIDOf(ctx))
+			if sh := ci.hookShape; (sh == "val" || sh == "can" || sh == "dead") && ctx.Value(hookMark{}) != ci.id {
+				ci.hookForeign.Add(1)
+			}
+			if ci.hookCancel != nil {
+				ci.hookCancel() // the usual pairing: what the connect hook set up, the terminate hook releases
+			}
 			ci.terminateN.Add(1)
 			ci.termSeq.Store(w.seq.Add(1))
 			w.touch()
@@ -710,6 +764,7 @@ type connScen struct {
 	Pad   int    `json:"pad"`  // the i-th request is made Pad+37*i bytes bigger
 	Coal  bool   `json:"coal"` // all the messages are handed to the transport in ONE write
 	Trunc int    `json:"trunc"` // before closing, the client sends the first Trunc bytes of one more request (a truncated message)
+	HkShape string `json:"hs"`  // shape of the connect hook's result (hookShapesFail / hookShapesOK); "" = nil when it fails, same otherwise
 	// schedule only (not part of the scenario the model sees: the model covers every schedule)
 	RelMs     int    `json:"rel"`       // the goroutine held at the director's point is released this long after the client's close
 	HoldPoint string `json:"holdpoint"` // every goroutine arriving at this yield point ...
@@ -766,6 +821,9 @@ func (s *connScen) replayText() string {
 	if s.Trunc != 0 {
 		t += ",trunc=" + strconv.Itoa(s.Trunc)
 	}
+	if s.HkShape != "" {
+		t += ",hs=" + s.HkShape
+	}
 	return t
 }
 
@@ -817,6 +875,8 @@ func parseConnScenText(t string) (*connScen, error) {
 			s.Coal = v == "1"
 		case "trunc":
 			s.Trunc, _ = strconv.Atoi(v)
+		case "hs":
+			s.HkShape = v
 		default:
 			return nil, errors.New("bad scenario key: " + k)
 		}
@@ -838,6 +898,8 @@ type connObs struct {
 	ClosedByUs bool
 	Reached    bool
 	Outcome    string
+	Starts     int // handlers started on this connection
+	Foreign    int // terminate hook runs with a context not derived from the one the connect hook returned
 }
 
 // behaviourOf: the handler behaviour of the k-th good request.
@@ -874,6 +936,7 @@ func runConnScenario(ts *testServer, id int, sc *connScen) (*connObs, error) {
 	w := ts.w
 	ci := w.info(id)
 	ci.hookFail = !sc.HkOK
+	ci.hookShape = sc.HkShape
 	if strings.HasPrefix(sc.Cl, "p:") {
 		ci.point = sc.Cl[2:]
 	}
@@ -1051,6 +1114,8 @@ func finishConn(w *world, id int, obs *connObs, m, r, wr int) {
 	obs.TermAfter = ci.termSeq.Load() >= ci.handlerEnds.Load()
 	obs.NotCancel = int(ci.notCancel.Load())
 	obs.Running = int(ci.handlers.Load())
+	obs.Starts = int(ci.starts.Load())
+	obs.Foreign = int(ci.hookForeign.Load())
 	inv := 0
 	for _, r := range obs.Resps {
 		if r.Invalid {
@@ -1173,7 +1238,13 @@ func c08Oracle(sc *connScen, o *connObs) []violOut {
 		wantT = 1
 	}
 	if o.Ended == "MRW" && o.Terminate != wantT {
-		add("hooks", "terminate-count", fmt.Sprintf("terminate hook ran %d times (connect hook ok=%v)", o.Terminate, sc.HkOK))
+		add("hooks", "terminate-count", fmt.Sprintf("terminate hook ran %d times (connect hook ok=%v, result shape %q)", o.Terminate, sc.HkOK, sc.HkShape))
+	}
+	if !sc.HkOK && (o.Starts > 0 || len(o.Resps) > 0) {
+		add("hooks", "handler-on-refused-connection", fmt.Sprintf("the connect hook failed (result shape %q) but %d requests of the connection reached a handler and %d responses were sent", sc.HkShape, o.Starts, len(o.Resps)))
+	}
+	if o.Foreign > 0 {
+		add("hooks", "terminate-foreign-context", fmt.Sprintf("the terminate hook ran with a context that is not derived from the one the connect hook returned (result shape %q)", sc.HkShape))
 	}
 	if o.Terminate > 0 && !o.TermAfter {
 		add("hooks", "terminate-before-handler-end", "the terminate hook ran before the connection's last handler ended")
@@ -1655,6 +1726,24 @@ func genConnScenarios(ctx *Ctx) [][]*connScen {
 			one(&connScen{Msgs: m, Rd: -1, Cl: cl, HkOK: false})
 		}
 	}
+	// 3b. every shape of the connect hook's result (see hookShapesFail / hookShapesOK): an error refuses the
+	//     connection whatever context comes with it; a succeeding hook may return a derived context
+	for i, hs := range hookShapesFail {
+		for j, m := range []string{"g", "gg", "", "b"} {
+			if !ctx.Thor && j >= 2 && (i+j)%2 == 0 {
+				continue
+			}
+			one(&connScen{Msgs: m, Rd: -1, Cl: rng.Pick(ctx.R, []string{"q", "q", "any", "sent"}), HkOK: false, HkShape: hs})
+		}
+	}
+	for _, hs := range hookShapesOK {
+		for _, m := range []string{"g", "gg", "gb"} {
+			one(&connScen{Msgs: m, Rd: -1, Cl: "q", HkOK: true, HkShape: hs, Behav: []string{behAt(k), behAt(k + 1)}})
+			k++
+		}
+		one(&connScen{Msgs: "g", Outs: "w", Rd: -1, Cl: "sent", HkOK: true, HkShape: hs})
+	}
+	one(&connScen{Msgs: "", Rd: -1, Cl: "q", HkOK: true, HkShape: "dead"})
 	// 4. handlers that wait for the cancellation of their context (each costs up to waitCap)
 	waits := []*connScen{
 		{Msgs: "g", Outs: "w", Rd: -1, Cl: "sent", HkOK: true},
@@ -1968,9 +2057,16 @@ type srvScen struct {
 	Kind string `json:"k"`
 	Sd   string `json:"sd"`
 	Seed uint64 `json:"seed"`
+	Hk   string `json:"hk"` // shape of the connect hook's result (hookShapesFail / hookShapesOK); "" = nil when k=f, same otherwise
 }
 
-func (s *srvScen) text() string { return fmt.Sprintf("n=%d,k=%s,sd=%s", s.N, s.Kind, s.Sd) }
+func (s *srvScen) text() string {
+	t := fmt.Sprintf("n=%d,k=%s,sd=%s", s.N, s.Kind, s.Sd)
+	if s.Hk != "" {
+		t += ",hk=" + s.Hk
+	}
+	return t
+}
 
 func (s *srvScen) replayText() string { return s.text() + ",seed=" + strconv.FormatUint(s.Seed, 10) }
 
@@ -1994,6 +2090,8 @@ func parseSrvScenText(t string) (*srvScen, error) {
 			s.Sd = v
 		case "seed":
 			s.Seed, _ = strconv.ParseUint(v, 10, 64)
+		case "hk":
+			s.Hk = v
 		default:
 			return nil, errors.New("bad scenario key: " + k)
 		}
@@ -2071,6 +2169,7 @@ func runSrvJob(job *ltsJob) *ltsRes {
 	for i := 1; i <= sc.N; i++ {
 		ci := w.info(i)
 		ci.hookFail = sc.Kind == "f"
+		ci.hookShape = sc.Hk
 		if sc.Seed != 0 {
 			ci.delays = rng.New(sc.Seed + uint64(i))
 		}
@@ -2147,6 +2246,10 @@ func runSrvJob(job *ltsJob) *ltsRes {
 				cl.behs = []string{"ok"}
 			case "w":
 				cl.behs = []string{"wait"}
+			case "f":
+				// the client of a refused connection does send a request: it must never reach a handler
+				// (the write ends with the server's close)
+				cl.behs = []string{"ok"}
 			}
 			if sc.Kind != "n" {
 				go cl.readAll(w)
@@ -2395,6 +2498,13 @@ func runSrvJob(job *ltsJob) *ltsRes {
 	for i := 1; i <= sc.N; i++ {
 		ci := w.info(i)
 		c, t := ci.connectN.Load(), ci.terminateN.Load()
+		if c > 0 && sc.Hk != "" {
+			fo := "ok"
+			if sc.Kind == "f" {
+				fo = "fail"
+			}
+			res.count("server.hookran:" + fo + ":" + sc.Hk)
+		}
 		if c > 1 {
 			add("hooks", "connect-count", fmt.Sprintf("connect hook ran %d times for one connection", c))
 		}
@@ -2403,7 +2513,23 @@ func runSrvJob(job *ltsJob) *ltsRes {
 			want = 1
 		}
 		if obs.Ended && t != want {
-			add("hooks", "terminate-count", fmt.Sprintf("connection %d: connect hook ran %d times (fails=%v), terminate hook %d times", i, c, sc.Kind == "f", t))
+			add("hooks", "terminate-count", fmt.Sprintf("connection %d: connect hook ran %d times (fails=%v, result shape %q), terminate hook %d times", i, c, sc.Kind == "f", ci.hookShape, t))
+		}
+		if sc.Kind == "f" {
+			// refused: the error of the connect hook ends the connection whatever context came with it
+			if n := ci.starts.Load(); n > 0 {
+				add("hooks", "handler-on-refused-connection", fmt.Sprintf("connection %d: the connect hook failed (result shape %q) but %d requests of the connection reached a handler", i, ci.hookShape, n))
+			}
+			cl := clients[i-1]
+			cl.mu.Lock()
+			nr := len(cl.resps)
+			cl.mu.Unlock()
+			if nr > 0 {
+				add("hooks", "response-on-refused-connection", fmt.Sprintf("connection %d: the connect hook failed (result shape %q) but the client received %d responses", i, ci.hookShape, nr))
+			}
+		}
+		if n := ci.hookForeign.Load(); n > 0 {
+			add("hooks", "terminate-foreign-context", fmt.Sprintf("connection %d: the terminate hook ran with a context that is not derived from the one the connect hook returned (result shape %q)", i, ci.hookShape))
 		}
 		if t > 0 && ci.termSeq.Load() < ci.handlerEnds.Load() {
 			add("hooks", "terminate-before-handler-end", "the terminate hook ran before the connection's last handler ended")
@@ -2463,6 +2589,33 @@ func genSrvScenarios(ctx *Ctx) []*srvScen {
 			}
 		}
 	}
+	// every shape of a connect hook's result: a failing hook returning no context, the context it was given,
+	// a derived one (value / cancellable / already cancelled), an unrelated one; a succeeding hook returning
+	// a derived context (value / cancellable, cancelled by the terminate hook; already cancelled only for
+	// connections without requests)
+	for _, hk := range hookShapesFail {
+		for _, sd := range []string{"any", "quiet", "hook", "accept1", "p:connStart", "spawn"} {
+			for _, n := range []int{1, 2} {
+				for rep := 0; rep < ctx.N(1, 4); rep++ {
+					out = append(out, &srvScen{N: n, Kind: "f", Sd: sd, Hk: hk, Seed: uint64(rep)})
+				}
+			}
+		}
+	}
+	for _, hk := range hookShapesOK {
+		for _, k := range []string{"i", "r", "p", "d"} {
+			for _, sd := range []string{"any", "quiet", "handler", "hook"} {
+				for rep := 0; rep < ctx.N(1, 4); rep++ {
+					out = append(out, &srvScen{N: 1 + (rep+len(out))%2, Kind: k, Sd: sd, Hk: hk, Seed: uint64(rep)})
+				}
+			}
+		}
+	}
+	for _, sd := range []string{"any", "quiet", "hook", "p:connStart"} {
+		for rep := 0; rep < ctx.N(1, 4); rep++ {
+			out = append(out, &srvScen{N: 1 + rep%2, Kind: "i", Sd: sd, Hk: "dead", Seed: uint64(rep)})
+		}
+	}
 	// registration racing with Shutdown (seed % 3 == 2: both released at the same moment)
 	for rep := 0; rep < ctx.N(40, 300); rep++ {
 		out = append(out, &srvScen{N: 1 + rep%2, Kind: rng.Pick(ctx.R, []string{"i", "r", "r", "f"}), Sd: "accept" + strconv.Itoa(1+rep%2), Seed: uint64(3*rep + 2)})
@@ -2479,7 +2632,13 @@ func genSrvScenarios(ctx *Ctx) []*srvScen {
 	r := ctx.R
 	allSds := append(append([]string{}, sds...), "p:connStart", "p:beforeSend", "p:sendLoaded", "p:readBeforeRx", "p:afterCancel")
 	for i := ctx.N(60, 600); i > 0; i-- {
-		out = append(out, &srvScen{N: 1 + r.Intn(2), Kind: rng.Pick(r, []string{"i", "r", "f", "d", "r", "d", "p", "p"}), Sd: rng.Pick(r, allSds), Seed: r.U64()%100000 + 2})
+		sc := &srvScen{N: 1 + r.Intn(2), Kind: rng.Pick(r, []string{"i", "r", "f", "d", "r", "d", "p", "p"}), Sd: rng.Pick(r, allSds), Seed: r.U64()%100000 + 2}
+		if sc.Kind == "f" {
+			sc.Hk = rng.Pick(r, hookShapesFail)
+		} else if r.Intn(2) == 0 {
+			sc.Hk = rng.Pick(r, hookShapesOK)
+		}
+		out = append(out, sc)
 	}
 	return out
 }
@@ -2589,7 +2748,14 @@ func runLtsServer(ctx *Ctx) {
 				ctx.Res.Fail("Shutdown was never injected while a goroutine was held at " + pt)
 			}
 		}
-		for _, k := range []string{"server.held:accept", "server.held:spawn", "server.held:handler", "server.held:hook", "tls.stalled-in-handshake", "tls.served", "tls.neighbour-served"} {
+		floors := []string{"server.held:accept", "server.held:spawn", "server.held:handler", "server.held:hook", "tls.stalled-in-handshake", "tls.served", "tls.neighbour-served", "server.hookran:ok:dead"}
+		for _, hk := range hookShapesFail {
+			floors = append(floors, "server.hookran:fail:"+hk)
+		}
+		for _, hk := range hookShapesOK {
+			floors = append(floors, "server.hookran:ok:"+hk)
+		}
+		for _, k := range floors {
 			if ctx.Res.Distribution[k] == 0 {
 				ctx.Res.Fail("coverage floor: " + k + " = 0")
 			}
@@ -2603,12 +2769,12 @@ func runLtsServer(ctx *Ctx) {
 func init() {
 	register(&Engine{
 		Name: "lts.srv",
-		Rule: "the real kmipserver.Server over unbuffered in-memory connections (half-close capable), in child processes (each child first runs a positive control of the goroutine profile and of the yield points): scripted clients (message sequences over {request, framed-undecodable (3 kinds), non-request message} up to 3 messages, pipelined, optionally made 300..70000 bytes bigger and handed to the transport in ONE write, optionally followed by a truncated message; reading all / none / one response; closing or half-closing when quiescent, after sending, after k responses, at a random time, or exactly while a server goroutine is held at one of the 6 connection yield points, the first statement of handleConn included; every request names its connection in its id and payload, a successful response must echo both) x handler outcomes {ok, typed error, plain error, panic(string, error, kmipserver.Error, int, Stringer, runtime error, nil), sleep, wait for ctx (slow to return), error / panic values whose Error, String or Unwrap methods panic} x connect hook ok/fails; random scripts with random delays at the yield points; groups of 2-8 concurrent connections; iso jobs: one connection blocked (handler never returns / client does not read / connect hook does not return / goroutine held at a yield point, also behind TLS) while 2-5 neighbours must be accepted and served with the answers to THEIR requests and the blocked connection, once released, with the answer to ITS request (non-reading client: 2 processors, 27 exchanges per neighbour, repeated); tls jobs: a peer that never completes the TLS handshake must not keep others from being served; after each scenario: goroutine profile, hooks, server-side disconnect, liveness probe on a new connection, Shutdown; gates: every yield point reached, every directed point held at least once, neighbours served; distinct = distinct (scenario, outcome) line; nontrivial = at least one client message",
+		Rule: "the real kmipserver.Server over unbuffered in-memory connections (half-close capable), in child processes (each child first runs a positive control of the goroutine profile and of the yield points): scripted clients (message sequences over {request, framed-undecodable (3 kinds), non-request message} up to 3 messages, pipelined, optionally made 300..70000 bytes bigger and handed to the transport in ONE write, optionally followed by a truncated message; reading all / none / one response; closing or half-closing when quiescent, after sending, after k responses, at a random time, or exactly while a server goroutine is held at one of the 6 connection yield points, the first statement of handleConn included; every request names its connection in its id and payload, a successful response must echo both) x handler outcomes {ok, typed error, plain error, panic(string, error, kmipserver.Error, int, Stringer, runtime error, nil), sleep, wait for ctx (slow to return), error / panic values whose Error, String or Unwrap methods panic} x connect hook ok/fails, in every shape of its result (failing: no context / the context it was given / a derived one — with a value, cancellable, already cancelled — / an unrelated one, returned WITH the error; succeeding: the given context or a derived one, already cancelled only without requests): a refused connection starts no handler, gets no response and no terminate hook, the terminate hook gets a context derived from the connect hook's; random scripts with random delays at the yield points; groups of 2-8 concurrent connections; iso jobs: one connection blocked (handler never returns / client does not read / connect hook does not return / goroutine held at a yield point, also behind TLS) while 2-5 neighbours must be accepted and served with the answers to THEIR requests and the blocked connection, once released, with the answer to ITS request (non-reading client: 2 processors, 27 exchanges per neighbour, repeated); tls jobs: a peer that never completes the TLS handshake must not keep others from being served; after each scenario: goroutine profile, hooks, server-side disconnect, liveness probe on a new connection, Shutdown; gates: every yield point reached, every directed point held at least once, neighbours served; distinct = distinct (scenario, outcome) line; nontrivial = at least one client message",
 		Run:  runLtsSrv,
 	})
 	register(&Engine{
 		Name: "lts.server",
-		Rule: "the real kmipserver.Server (Serve + Shutdown) over in-memory connections in child processes (positive control per child): 1-2 clients of kind {idle, one request, two pipelined requests, failing connect hook, disconnecting at a random time, handler waiting for its context, client that never reads its response} x Shutdown called {at a random time, before any connection, while the accept loop is held between Accept and registration of the 1st/2nd connection (Shutdown completing before / overlapping / released at the same moment as the loop), between `go handleConn` and the first instruction of the new goroutine (Shutdown called from the listener's Accept, on the accept loop's goroutine), when quiescent, while a handler is held running, while a connect hook is held running, while a goroutine of a connection is held at each of the 6 connection yield points (the first statement of handleConn included)}; random delays at all yield points; tls jobs: a peer stalled in the TLS handshake (silent / partial record) while Shutdown is called, and while other peers must be served; observed at the return of Shutdown and after settling: Serve's return, running handlers, alive owner and reader/writer goroutines, hook counts and order, Shutdown duration relative to the 3 s grace period, the responses each client received (compared with the handlers that ran), the server-side close of every connection incl. refused ones; gates: Shutdown injected at least once at every directed point; distinct = distinct (scenario, outcome) line; nontrivial = 2 connections or traffic",
+		Rule: "the real kmipserver.Server (Serve + Shutdown) over in-memory connections in child processes (positive control per child): 1-2 clients of kind {idle, one request, two pipelined requests, failing connect hook (its client sends a request, which must reach no handler), disconnecting at a random time, handler waiting for its context, client that never reads its response} x Shutdown called {at a random time, before any connection, while the accept loop is held between Accept and registration of the 1st/2nd connection (Shutdown completing before / overlapping / released at the same moment as the loop), between `go handleConn` and the first instruction of the new goroutine (Shutdown called from the listener's Accept, on the accept loop's goroutine), when quiescent, while a handler is held running, while a connect hook is held running, while a goroutine of a connection is held at each of the 6 connection yield points (the first statement of handleConn included)}; the connect hook's result in every shape (hk=: a failing hook returns, WITH its error, no context / the context it was given / a derived one with a value / a derived cancellable one / a derived already cancelled one / context.Background(); a succeeding hook returns the given context, one derived with a value, a cancellable one that the terminate hook cancels, or — idle clients only — an already cancelled one), each shape required to have run; random delays at all yield points; tls jobs: a peer stalled in the TLS handshake (silent / partial record) while Shutdown is called, and while other peers must be served; observed at the return of Shutdown and after settling: Serve's return, running handlers, alive owner and reader/writer goroutines, hook counts and order, no handler started and no response received on a refused connection, the terminate hook's context derived from the connect hook's, Shutdown duration relative to the 3 s grace period, the responses each client received (compared with the handlers that ran), the server-side close of every connection incl. refused ones; gates: Shutdown injected at least once at every directed point; distinct = distinct (scenario, outcome) line; nontrivial = 2 connections or traffic",
 		Run:  runLtsServer,
 	})
 }
